@@ -205,3 +205,43 @@ def registered_callbacks(ctx, cls):
                         if mm is not None:
                             out[mm.key] = (mm, q.recv(e))
     return out
+
+
+def record_roles(ctx, cls):
+    """for a queueing executor: (field holding the queue, record class, {role: record field}) discovered from the
+    public submit that takes `fn`: which record field receives fn / *args / **kwargs / the returned future"""
+    from .interp import fmt as _fmt
+    best = None
+    for c in cls.mro():
+        if not isinstance(c, ClassInfo):
+            continue
+        for n, m in c.methods.items():
+            if cls.lookup(n)[1] is not m or not (n == "submit" or n.startswith("submit_")) or "fn" not in m.params:
+                continue
+            ps, it = ctx.paths(m, cls, depth=5, inline=std_inline)
+            for p in ps:
+                if p.status != "return":
+                    continue
+                for e in p.calls():
+                    r = q.recv(e)
+                    if q.call_name(e) in ("append", "add", "appendleft") and isinstance(r, tuple) and r[0] == "attr" and r[1] == SELF and e.d["args"]:
+                        obj = e.d["args"][-1]
+                        t = it.type_of(obj, p)
+                        rc = ctx.types.cls_of(t) if t else None
+                        if rc is None:
+                            continue
+                        roles = {}
+                        for f, v in job_fields(p, obj).items():
+                            if v == p.value:
+                                roles["future"] = f
+                            elif v == ("param", "fn"):
+                                roles["fn"] = f
+                            elif v == ("seq", (), ("param", m.vararg), 0):
+                                roles["args"] = f
+                            elif v == ("kw", (), ("param", m.kwarg)):
+                                roles["kwargs"] = f
+                        if {"future", "fn", "args", "kwargs"} <= set(roles):
+                            best = (r[2], rc, roles)
+    if best is None:
+        raise AnalysisError("%s: job record roles (future / fn / args / kwargs) not identified" % cls.name)
+    return best
